@@ -187,7 +187,7 @@ def drive(recipe):
             t["exc"] = type(e).__name__
     elif k == "apply":
         c, n, pts = recipe["c"], recipe["n"], recipe["pts"]
-        t = {"k": k, "c": c, "n": n, "pts": pts, "exc": "", "off": False, "out3": [], "out4": [], "call": [],
+        t = {"k": k, "c": c, "n": n, "pts": pts, "exc": "", "off": False, "out3": [], "out4": [], "call": [], "out4w2": [], "out4w3": [], "out4d": [],
              "hascart": False, "cart": []}
         try:
             op = SymmetryOperation.from_integer_code(c)
@@ -218,6 +218,14 @@ def drive(recipe):
                 g, o = grid_vec(row, n, 1e-9)
                 t["call"].append(g)
                 off |= o
+            # homogeneous coordinates need not be normalised: (w x, w) is the point x for any weight, (x, 0) is a direction
+            for key, arr in (("out4w2", np.c_[2 * x, 2 * np.ones(len(x))]), ("out4w3", np.c_[3 * x, 3 * np.ones(len(x))]),
+                             ("out4d", np.c_[x, np.zeros(len(x))])):
+                t[key] = []
+                for row in op.apply(arr):
+                    g, o = grid_vec(row, n, 1e-9)
+                    t[key].append(g)
+                    off |= o
             if recipe.get("sg"):
                 from chmpy.crystal import Crystal, UnitCell, SpaceGroup, AsymmetricUnit
                 from chmpy.core.element import Element
@@ -296,6 +304,20 @@ def run(ctx):
             idx = rng.randrange(len(r["ops"]))
             cell = [rng.uniform(3, 20), rng.uniform(3, 20), rng.uniform(3, 20), rng.uniform(70, 110),
                     rng.uniform(70, 110), rng.uniform(70, 110)]
+            shape = rng.random()
+            if shape < 0.3:
+                # cells with special shapes (exact right angles, equal edges, 120 degrees): any shape-specific shortcut in the
+                # Cartesian form of the operations is taken here
+                cell[3:] = [90.0, 90.0, 90.0]
+                if shape < 0.1:
+                    cell[1] = cell[0]
+                if shape < 0.05:
+                    cell[2] = cell[0]
+            elif shape < 0.4:
+                cell[3:] = [90.0, rng.uniform(91, 120), 90.0]
+            elif shape < 0.5:
+                cell[1] = cell[0]
+                cell[3:] = [90.0, 90.0, 120.0]
             recipes.append({"k": "apply", "c": r["ops"][idx], "n": n, "pts": pts,
                             "sg": [r["number"], r["choice"], idx, cell]})
             if r["number"] in (146, 148, 155, 160, 161, 166, 167) or rng.random() < 0.02:
